@@ -159,19 +159,30 @@ structure BuildNF (a : Nat) (b : Built) (sg : Segs) : Prop where
   range : ∀ j ∈ sgNums sg, a ≤ j ∧ j < b.anon
   le : a ≤ b.anon
 
+/-- the two shapes of the segment list of an accepted build -/
+def SgShape (a : Nat) (cs : List CItem) (len : Option Nat) (sg : Segs) : Prop :=
+  (wildFree cs = true ∧ (len = none ∨ len = some (lenSum cs)) ∧ sg = [(a, cs)]) ∨
+  (∃ pre w post L, cs = pre ++ .nuc w :: post ∧ wildFree pre = true ∧ wildCount w = 1 ∧ wildFree post = true ∧
+    len = some L ∧ lenSum pre + lenSum post + fixedSum w ≤ L ∧
+    sg = [(a, pre), (a + nucCount pre + nucCount post,
+            [.nuc (explicit (L - (lenSum pre + lenSum post) - fixedSum w) w)]), (a + nucCount pre, post)])
+
 theorem buildSuper_nf {a : Nat} {cs : List CItem} {len : Option Nat} {b : Built}
     (h : buildSuper a cs len = .ok b) :
     ∃ sg, BuildNF a b sg ∧ (∀ i bs, CItem.obj i bs ∈ sgItems sg → CItem.obj i bs ∈ cs) ∧
-      (∀ p, CItem.nuc p ∈ sgItems sg → CItem.nuc p ∈ cs ∨ ∃ w x, CItem.nuc w ∈ cs ∧ p = explicit x w) := by
-  rcases buildSuper_ok_cases h with ⟨hw, _, rfl⟩ | ⟨pre, w, post, L, rfl, hpre, hw, hpost, rfl, hle, rfl⟩
+      (∀ p, CItem.nuc p ∈ sgItems sg → CItem.nuc p ∈ cs ∨ ∃ w x, CItem.nuc w ∈ cs ∧ p = explicit x w) ∧
+      SgShape a cs len sg := by
+  rcases buildSuper_ok_cases h with ⟨hw, hlen, rfl⟩ | ⟨pre, w, post, L, rfl, hpre, hw, hpost, rfl, hle, rfl⟩
   · refine ⟨[(a, cs)], ⟨by simp [sgRefs], by simp [sgBases], by simp [sgLen], by simpa using hw,
-      by simp [sgAnons], ?_, ?_, ?_, by simp⟩, by simp [sgItems], fun p hp => Or.inl (by simpa [sgItems] using hp)⟩
+      by simp [sgAnons], ?_, ?_, ?_, by simp⟩, by simp [sgItems], fun p hp => Or.inl (by simpa [sgItems] using hp),
+      Or.inl ⟨hw, hlen, rfl⟩⟩
     · simp only [anonsFrom_names]; exact nodup_names_of_nums (nodup_range1 _ _)
     · simp [sgNums, nodup_range1]
     · simp only [sgNums, List.flatMap_cons, List.flatMap_nil, List.append_nil, List.mem_range'_1]
       intro j hj; omega
   · refine ⟨[(a, pre), (a + nucCount pre + nucCount post,
-        [.nuc (explicit (L - (lenSum pre + lenSum post) - fixedSum w) w)]), (a + nucCount pre, post)], ⟨?_, ?_, ?_, ?_, ?_, ?_, ?_, ?_, ?_⟩, ?_, ?_⟩
+        [.nuc (explicit (L - (lenSum pre + lenSum post) - fixedSum w) w)]), (a + nucCount pre, post)], ⟨?_, ?_, ?_, ?_, ?_, ?_, ?_, ?_, ?_⟩, ?_, ?_,
+      Or.inr ⟨pre, w, post, L, rfl, hpre, hw, hpost, rfl, hle, rfl⟩⟩
     · simp [sgRefs, refsFrom, fixedSum_explicit, hw]; omega
     · simp [sgBases, basesFrom, fixedSum_explicit, hw]; omega
     · simp [sgLen, lenSum, fixedSum_explicit, hw]; omega
